@@ -141,6 +141,7 @@ fn main() {
             0
         }
         "c13-one" => props::c13::replay(&arg(&args, "--history").unwrap_or_default(), arg(&args, "--k").and_then(|k| k.parse().ok()).unwrap_or(2), &engine_hooks(&args), seed),
+        "c13-deep" => props::c13::replay_deep(arg(&args, "--index").unwrap().parse().unwrap(), &tier, &engine_hooks(&args), seed),
         "c16" => {
             props::c16::run(&tier, seed, &out, &engine_hooks(&args), &engine_plain(&args));
             0
